@@ -248,9 +248,9 @@ SRC_MODULES = {
     "Anonymongo.Src.redactScalarValue_eq": "Scalar", "Anonymongo.Src.redactScalarValue_eq_gen": "Scalar", "Anonymongo.Src.Gen_emailPH": "Scalar",
     "Anonymongo.Src.getOp_eq": "Path", "Anonymongo.Src.traverseMapPath_eq": "Path", "Anonymongo.Src.traverseMapPath_step": "Path",
     "Anonymongo.Src.traverseFuel_enough": "Path",
-    "Anonymongo.Src.redactString_eq": "Basic", "Anonymongo.Src.reMatchesAnyKeyInPath_eq": "Basic", "Anonymongo.Src.IsEmail_eq": "Basic",
-    "Anonymongo.Src.withinSearchUserDocument_eq": "Basic", "Anonymongo.Src.RemoveElementAfter_eq": "Basic",
-    "Anonymongo.Src.RemoveElementsBeforeIncluding_eq": "Basic",
+    "Anonymongo.Src.redactString_eq": "Leaf", "Anonymongo.Src.reMatchesAnyKeyInPath_eq": "Leaf", "Anonymongo.Src.IsEmail_eq": "Leaf",
+    "Anonymongo.Src.withinSearchUserDocument_eq": "PathFns", "Anonymongo.Src.RemoveElementAfter_eq": "PathFns",
+    "Anonymongo.Src.RemoveElementsBeforeIncluding_eq": "PathFns",
     "Anonymongo.Src.isFieldNameValue_eq": "Helpers", "Anonymongo.Src.isRedactableFieldPatternInArray_eq": "Helpers",
     "Anonymongo.Src.isInSearchStage_eq": "Helpers", "Anonymongo.Src.augmentOp_eq": "Helpers",
     "Anonymongo.Src.redactOperation_eq": "Dispatch", "Anonymongo.Src.redactOperation_seq": "Dispatch", "Anonymongo.Src.seqOp_map": "Dispatch",
